@@ -320,9 +320,26 @@ def run_property(prop, tier, obligations, meta, seed=0, only=None, jobs=None, ke
         return 2
     findings = load_findings()
     slot = Slot()
-    logdir = os.path.join(CACHE, 'logs', prop)
+    # one log directory per run (two runs of the same property may be in flight: seeded-change runs, vp runs)
+    logroot = os.path.join(CACHE, 'logs')
+    os.makedirs(logroot, exist_ok=True)
+    for d in os.listdir(logroot):
+        m = re.fullmatch(re.escape(prop) + r'\.(\d+)', d)
+        if m and not os.path.exists('/proc/%s' % m.group(1)):
+            shutil.rmtree(os.path.join(logroot, d), ignore_errors=True)
+    logdir = os.path.join(logroot, '%s.%d' % (prop, os.getpid()))
     shutil.rmtree(logdir, ignore_errors=True)
     os.makedirs(logdir, exist_ok=True)
+    latest = os.path.join(logroot, prop)
+    try:
+        if os.path.islink(latest) or os.path.exists(latest):
+            if os.path.islink(latest):
+                os.unlink(latest)
+            else:
+                shutil.rmtree(latest, ignore_errors=True)
+        os.symlink(logdir, latest)
+    except OSError:
+        pass
     results = {}
     exit_code = 0
     overlay_infos = []
